@@ -116,6 +116,57 @@ func c12schemaCase(schemaText, instText string, mode int) string {
 			return fmt.Sprintf("the schema (no $ref) was modified: before %s, after %s", schBefore, after)
 		}
 	}
+	// the inputs of earlier calls are still the caller's: a later call (with other inputs) must not change
+	// them either (a sub-schema of an earlier schema parked in a scratch pool and overwritten by the
+	// next borrower shows only then). Everything used with the last 8 schemas is kept and re-examined
+	// whenever the schema changes.
+	if schemaText != c12lastText {
+		c12lastText = schemaText
+		c12gen++
+		if msg := c12recheck(); msg != "" {
+			return msg
+		}
+		keep := c12held[:0]
+		for _, h := range c12held {
+			if h.gen > c12gen-8 {
+				keep = append(keep, h)
+			}
+		}
+		c12held = keep
+	}
+	if !hasRef {
+		c12held = append(c12held, c12hold{sch, schBefore, schemaText, inst, instBefore, c12gen})
+	}
+	return ""
+}
+
+type c12hold struct {
+	sch      *spec.Schema
+	schSnap  string
+	text     string
+	inst     any
+	instSnap string
+	gen      int
+}
+
+var (
+	c12held     []c12hold
+	c12lastText string
+	c12gen      int
+)
+
+// c12recheck compares everything held with its snapshot.
+func c12recheck() string {
+	for _, h := range c12held {
+		if after := jsonSnap(h.sch); after != h.schSnap {
+			c12held = nil
+			return fmt.Sprintf("an EARLIER schema (no $ref) %s was modified by a later call with other inputs: before %s, after %s", h.text, h.schSnap, after)
+		}
+		if after := deepSnap(h.inst); after != h.instSnap {
+			c12held = nil
+			return fmt.Sprintf("an EARLIER instance was modified by a later call with other inputs: before %s, after %s", h.instSnap, after)
+		}
+	}
 	return ""
 }
 
